@@ -65,11 +65,14 @@ def hourlyDailyBilling (starts : List Int) (rs : List Reading) : List DayAgg :=
     else rows   -- a feed with one reading per day: the class applies no coverage rule (not reachable from an hourly feed)
 
 /-- `as_freq(..., "instantaneous")`: time-weighted mean over the minutes that carry a value -/
+def weighted (d0 d1 : Int) (p : Period) : Rat :=
+  match p.v with
+  | some v => v * (overlap d0 d1 p.t0 p.t1 : Int)
+  | none => 0
+
 def instMean (ps : List Period) (d0 d1 : Int) : Option Rat :=
   if dayCovered ps d0 d1 = 0 then none
-  else some ((ps.map fun p => match p.v with
-      | some v => v * (overlap d0 d1 p.t0 p.t1 : Int)
-      | none => 0).sum / (dayCovered ps d0 d1 : Rat))
+  else some ((ps.map (weighted d0 d1)).sum / (dayCovered ps d0 d1 : Rat))
 
 /-- the sub-hourly path of the data classes.  `divideByCoverage` reproduces the pinned code, which
 divides the mean by the coverage (copied from the meter path); the repaired code does not. -/
